@@ -59,7 +59,7 @@ var lines = []line{
 	{text: macC + " 10.0.0.300", bad: true},
 	{text: macC + " ::ffff:10.0.0.7", silent: true},
 	{text: "  " + macC + " 10.0.0.3", silent: true}, // leading blanks
-	{text: " ", silent: true},                        // whitespace-only line
+	{text: " ", silent: true},                       // whitespace-only line
 }
 
 // parseRef is the reference parser written from the statement.
